@@ -1408,13 +1408,25 @@ async def run_history(spec: dict[str, Any], hist: History,
                     break
             msgs.append(m)
         old = rng.choice([0, 0, rng.randint(1, len(msgs))])
-        if not await build_mailbox(env, hist, msgs, old):
+        # "late": the last 2-5 messages arrive from another connection after
+        # the searching session has selected, and enter its view in one
+        # refresh
+        nlate = min(len(msgs) - 1, 2 + spec['seed'] % 4) \
+            if spec.get('late') and len(msgs) > 2 else 0
+        early = msgs[:len(msgs) - nlate]
+        if not await build_mailbox(env, hist, early, min(old, len(early))):
             return
         a = await open_session(env, hist, 1, examine=spec.get('examine',
                                                               False))
         if a is None:
             hist.aborted = 'select-failed'
             return
+        if nlate:
+            if not await build_mailbox(env, hist, msgs[len(early):], 0):
+                return
+            await a.noop()
+            counters['late_arrivals'] = counters.get('late_arrivals', 0) + \
+                nlate
         run = Runner(a, hist, counters)
         run.shapes = shapes
         nprog = spec['nprog']
@@ -1616,7 +1628,7 @@ class C13(Check):
                    'nmeta': rng.randint(2, 4),
                    'expunge': rng.random() < 0.55,
                    'examine': rng.random() < 0.15,
-                   'force': force}
+                   'force': force, 'late': i % 3 == 1}
 
     def setup_worker(self) -> None:
         install_glass()
